@@ -72,8 +72,10 @@ def fintlist(alist):
         # we have a string (comma-separated integers)
         alist = alist.strip().strip("[] ").split(",")
     for it in alist:
-        if it:
-            outlist.append(fint(it))
+        if isinstance(it, str) and not it.strip():
+            # skip empty strings (e.g. from splitting an empty list)
+            continue
+        outlist.append(fint(it))
     return outlist
 
 
